@@ -1,7 +1,7 @@
 """C08 - parse has exactly three outcomes, fixed by the start rule's match."""
-from contracts import rt_run, rt_final, rt_errors, rt_misc, rt_walk, shift
+from contracts import rt_run, rt_final, rt_errors, rt_misc, rt_walk, shift, core, lists, bind, call
 from pyvc.report import Report
-from .common import run_rt
+from .common import run_rt, run_fragments
 from . import wiring
 
 
@@ -13,6 +13,12 @@ def run(tier, seed):
                      'conjunction of discharged safety VCs; every entry point is shown (on emitted text) to be _run over the right implementation.')
     run_rt(rep, rt_run.RUN + rt_final.FINAL + rt_errors.RT + rt_misc.EXC + [rt_walk.VisitC()], tier)
     shift.shift_lemmas(rep, tier)
+    # "no other exception escapes": what _run relies on in EVERY answer of every emitted fragment - the status register is a bool (a truthy
+    # 3 would be read as a request), on failure the result register is an error function (it is CALLED to raise ParseError), positions
+    # stay inside the text, no operation of the fragment itself can raise.  The protocol clauses of all fragment contracts, re-run here.
+    protocol = lambda name: any(t in name for t in ('G-bool', 'G-err', 'G-range', 'safety:'))
+    run_fragments(rep, core.CORE + lists.LISTS + bind.BIND + call.CALL, tier, clause_filter=protocol,
+                  only_cfg=lambda c, cfg: len(cfg.get('flags', [])) <= 2)
     wiring.entry_point_obligations(rep, tier)
     wiring.rule_wrapper_obligations(rep, tier)
     wiring.derived_start_obligations(rep, tier)
